@@ -373,9 +373,13 @@ func clientMonitor(lines, outs []string, m *Model) []Violation {
 			if w0[3] == "tick" {
 				gap, _ := strconv.ParseInt(w[2], 10, 64)
 				hold, _ := strconv.ParseInt(w[3], 10, 64)
-				bound := (clientTickP + clientGapSlack).Microseconds() + hold
+				// the property's bound is progress interval + receive timeout (Props.C18.status_gap_bounded);
+				// the client's receive timeout is 5 s. (An earlier version compared against P + the time the
+				// harness itself held the receive + 300 ms, which is tighter than the property and raised a
+				// false alarm on a loaded machine; the action ORDER is compared exactly by the correspondence.)
+				bound := (clientTickP + clientGapSlack).Microseconds() + hold + 5_000_000
 				if gap > bound {
-					vs = append(vs, Violation{"C18", fmt.Sprintf("measured gap between consecutive status updates %d us > P + hold + slack = %d us", gap, bound), ""})
+					vs = append(vs, Violation{"C18", fmt.Sprintf("measured gap between consecutive status updates %d us > P + T + hold + slack = %d us", gap, bound), ""})
 				}
 			}
 			continue
